@@ -17,6 +17,75 @@ import re
 from . import common
 
 
+def _strip_comments(src):
+    out, depth, i, n = [], 0, 0, len(src)
+    while i < n:
+        if src.startswith("(*", i):
+            depth += 1
+            i += 2
+        elif src.startswith("*)", i) and depth > 0:
+            depth -= 1
+            i += 2
+        else:
+            if depth == 0:
+                out.append(src[i])
+            elif src[i] == "\n":
+                out.append("\n")
+            i += 1
+    return "".join(out)
+
+
+_FORBIDDEN = [r"^\s*(Local\s+|Global\s+|Polymorphic\s+)*(Axiom|Axioms|Parameter|Parameters|Conjecture|Conjectures)\b", r"\bAdmitted\b", r"\badmit\b",
+              r"\bAdmit\s+Obligations\b", r"Unset\s+Guard\s+Checking", r"Unset\s+Positivity\s+Checking", r"Unset\s+Universe\s+Checking",
+              r"bypass_check", r"type-in-type", r"impredicative-set"]
+_hygiene_done = {}
+
+
+def hygiene_obligation(ctx):
+    """Static obligation on the whole development (every run): no Axiom / Parameter / Conjecture / Admitted / admit / Admit
+    Obligations, no Variable / Hypothesis outside a Section, no disabled kernel check, no -type-in-type in _CoqProject."""
+    bad = []
+    d = os.path.join(common.VERIF, "coq")
+    files = sorted(f for f in os.listdir(d) if f.endswith(".v") and not f.startswith("cases"))
+    for f in files:
+        src = _strip_comments(open(os.path.join(d, f), errors="replace").read())
+        depth = 0
+        for ln, line in enumerate(src.split("\n"), 1):
+            for pat in _FORBIDDEN:
+                if re.search(pat, line):
+                    bad.append("%s:%d: %s" % (f, ln, line.strip()[:80]))
+            if re.match(r"^\s*(Section|Module\s+Type)\s+\w+", line):
+                depth += 1
+            elif re.match(r"^\s*End\s+\w+\s*\.", line) and depth > 0:
+                depth -= 1
+            elif depth == 0 and re.match(r"^\s*(Variable|Variables|Hypothesis|Hypotheses|Context)\b", line):
+                bad.append("%s:%d: %s outside a Section" % (f, ln, line.strip()[:60]))
+    proj = open(os.path.join(d, "_CoqProject")).read()
+    for pat in ("type-in-type", "impredicative-set", "-vos", "-vok", "bypass"):
+        if pat in proj:
+            bad.append("_CoqProject: " + pat)
+    ctx.oblige("hygiene: %d .v files free of Axiom/Parameter/Conjecture/Admitted/admit, Variable/Hypothesis outside sections and disabled kernel checks" % len(files),
+               not bad, "; ".join(bad[:20]))
+    if bad:
+        ctx.violations.append({"kind": "coq-hygiene", "static": True, "sig": "coq-hygiene " + bad[0], "detail": {"offending": bad[:50]}})
+
+
+def coqchk_obligation(ctx, props_names):
+    """Thorough tier: re-check the compiled Props modules and everything they depend on with the independent checker
+    coqchk, and read the axioms it reports for the whole context."""
+    mods = ["CV." + n for n in props_names]
+    with common.Lock("coqbuild"):
+        p = common.sh(["timeout", "5400", "coqchk", "-silent", "-o", "-Q", common.COQ, "CV"] + mods, cwd=common.COQ, timeout=5500, check=False)
+    out = p.stdout or ""
+    m = re.search(r"\* Axioms:\s*(.*?)\n\s*\n\s*\* Constants/Inductives relying on type-in-type:\s*(.*?)\n\s*\n\s*\* Constants/Inductives relying on unsafe \(co\)fixpoints:\s*(.*?)\n\s*\n\s*\* Inductives whose positivity is assumed:\s*(.*?)\n", out, re.S)
+    ok = p.returncode == 0 and m is not None and all(g.strip() == "<none>" for g in m.groups())
+    ctx.oblige("coqchk -o %s: modules re-checked, Axioms / type-in-type / unsafe fixpoints / assumed positivity all <none>" % " ".join(props_names),
+               ok, out[-1500:])
+    ctx.coverage["coqchk"] = "coqchk -silent -o on %s: %s" % (", ".join(props_names), "no axioms, no unsafe definitions" if ok else "FAILED")
+    if not ok:
+        ctx.violations.append({"kind": "coqchk", "static": True, "sig": "coqchk " + " ".join(props_names), "detail": {"output_tail": out[-1500:]}})
+
+
 def props_obligations(ctx, props_name):
     """Obligations: one per theorem in Props_<...>.v, discharged iff the file compiles and
     Print Assumptions reports 'Closed under the global context' for it."""
@@ -122,8 +191,14 @@ def standard(ctx, props, sub, label, extra_args=(), lists=("M",), timeout=3000,
     ledger: relative path of the exact failing-input ledger for this run; such runs use a fixed
     corpus (seed given by `seed`, default 1) so that recorded inputs are identified exactly."""
     common.build_coq()
-    for p in ([props] if isinstance(props, str) else props):
+    if not getattr(ctx, "_hygiene", False):
+        ctx._hygiene = True
+        hygiene_obligation(ctx)
+    plist = [props] if isinstance(props, str) else list(props)
+    for p in plist:
         props_obligations(ctx, p)
+    if ctx.tier == "thorough" and plist:
+        coqchk_obligation(ctx, plist)
     hb = common.build_harness()
     if model:
         common.ensure_driver()
